@@ -1,12 +1,43 @@
 # Table read by tools_manifest.py.  claim(id, level text, level note, design ref) / na(id, reason)
+_TB = ("Trusted base: go/packages+go/ssa (x/tools v0.29.0) translation, govc's SMT encoding of the Go subset, solver soundness "
+       "(z3 5.1.0 / z3 4.8.12 / cvc5 1.0.3), the library models and interface/trusted contracts listed in the evidence file's assumptions. ")
 claim("C03",
-      "Proof, function by function, that the tracestate validators, parser and editors of package trace satisfy contracts "
-      "transcribed from the W3C grammar for every input string (no bound): validators equal the grammar predicates, "
-      "ParseTraceState/Insert/Delete only ever produce lists with valid members and pairwise distinct keys (type invariant), "
-      "Insert/Delete order and copy-on-write postconditions, no run-time panic. Tests sample a few dozen headers; these obligations quantify over all strings.",
-      "Trusted: go/ssa translation, govc's SMT encoding, solver soundness, library models strings.Cut/TrimLeft/TrimRight/Builder, fmt.Errorf non-nil. "
-      "Not decided: round-trip identity String∘Parse and Inject∘Extract (needs the recursive join spec; planned), propagation package.",
+      "Proof, function by function and for every input string (no bound), that the tracestate validators, parser and editors of package trace satisfy contracts "
+      "transcribed from the W3C grammar: validators equal the grammar predicates, ParseTraceState/Insert/Delete only ever produce lists with valid members, "
+      "pairwise distinct keys and at most 32 members (type invariant), Insert/Delete order, drop-right-most and copy-on-write postconditions, ID validity, no run-time panic. "
+      "The suite samples a few dozen headers; these obligations quantify over all strings and all list contents.",
+      _TB + "Not decided: round-trip identity String∘Parse / Inject∘Extract, package propagation (see evidence not_decided).",
       "DESIGN.md 4 C03")
+claim("C09",
+      "Proof for all trace IDs, ratios and parent contexts: the ratio sampler's decision is the stated function of the low 8 ID bytes and the bound (bit-vector exact), "
+      "the bound is monotone in the ratio and within 2^63 (floating-point lemmas), always-on/off samplers, the parent-based dispatch table, default delegates, and in tracer.newSpan: "
+      "trace-ID inheritance from a valid parent, new root ignores the parent, sampled flag <=> RecordAndSample, other flag bits kept, tracestate from the sampler, recording span <=> decision != Drop, generated IDs valid.",
+      _TB + "Third-party Sampler/IDGenerator implementations are assumed deterministic/valid (interface contracts); newRecordingSpan's field mapping is a trusted contract. "
+      "Not decided: span-ID uniqueness (probabilistic).",
+      "DESIGN.md 4 C09")
+claim("C13",
+      "Proof of field-mapping postconditions for every input: OTLP span (IDs, name, kind table, start/end clamped at 0, dropped counts clamped to uint32, status, parent ID presence, flags), "
+      "clampUint32, status, spanKind, buildSpanFlags; OTLP log record in both the HTTP and gRPC copies against one shared contract text (severity table, timestamps, text, event name, flags, "
+      "dropped attribute count, trace/span ID presence).",
+      _TB + "ReadOnlySpan accessors are assumed deterministic (interface contracts). Not decided: protobuf wire round trip, attribute/link/event/body conversion loops, metric transforms, Zipkin, grouping.",
+      "DESIGN.md 4 C13")
+claim("C14",
+      "Proof over the real retry loop (six generated copies, one contract text): success or a non-retryable error is returned at once and unchanged, the wait is max(throttle, backoff) >= throttle, "
+      "the loop gives up exactly when the time budget is or would be exceeded; HTTP evaluate retries exactly retryableError values (three copies); the gRPC retryable code table is exact (three copies). "
+      "Known finding (listed in KNOWN_FINDINGS.txt, class-split so other violations still alarm): Retry-After seconds are used as nanoseconds.",
+      _TB + "fn/evaluate/waitFunc are function values treated as deterministic; backoff, time.Since and grpc status accessors are external (havocked / assumed pure). "
+      "Not decided: wall-clock behaviour, cancellation timing, HTTP status classification in the Upload* closures.",
+      "DESIGN.md 4 C14")
+claim("C18",
+      "Proof that collector.getName never panics for every non-empty instrument name, unit, namespace and type (the index into the trimmed name is guarded), and that counters end in _total; convertsToUnderscore table.",
+      _TB + "model.EscapeName (prometheus/common) is assumed to return a non-empty name for a non-empty input. Not decided: registry acceptance, concurrent scrapes, getAttrs/histogram conversion (not yet under contract).",
+      "DESIGN.md 4 C18")
+claim("C20",
+      "Proof for every environment content (os.Getenv as an arbitrary function of the key, strconv.Atoi as an arbitrary partial function): IntEnvOr/firstInt return the parsed value of the first non-empty key "
+      "else the default, unparsable => default, signal-specific key before generic key for the span limits; NewBatchSpanProcessor has no run-time panic (make(chan)/make([]T) sizes) for every integer the environment or an option can supply.",
+      _TB + "Options are unknown function values that may write the options struct arbitrarily; integer overflow in duration arithmetic is assumed absent (wraps, never panics). "
+      "Not decided: log SDK resolver chain, OTLP exporter option/env folds, wire behaviour.",
+      "DESIGN.md 4 C20")
 _todo = "check not built yet in this session (engine exists; contracts for this property's functions still to be written)"
-for _p in ["C01","C02","C04","C05","C06","C07","C08","C09","C10","C11","C12","C13","C14","C15","C16","C17","C18","C19","C20"]:
+for _p in ["C01","C02","C04","C05","C06","C07","C08","C10","C11","C12","C15","C16","C17","C19"]:
     na(_p, _todo)
